@@ -178,6 +178,26 @@ def generate(rng, tier, seed):
                 i = c2.line("spec.tr31_build\t" + "\t".join([enc_b(kbpk), enc_header(h), "s:", "i:0", enc_b(key), enc_b(rb(rng, padlen)), "i:0"]))
                 c2.deferred = (kbpk, i, h, key)
                 yield c2
+        # long keys: bit lengths around 2^15 (4095, 4096, 4097 bytes) and the longest that fits, both directions
+        for klen in (4095, 4096, 4097, 4900):
+            kbpk = rb(rng, ksizes[-1])
+            h = make_header(rng, ver, [])
+            key = rb(rng, 64) * (klen // 64) + rb(rng, klen % 64)
+            c = Case(f"{ver}:long-key:psec-to-spec", {"key": klen})
+            w = wrap_case(c, kbpk, h, key, 0)
+            if w.ok:
+                i = c.line(f"spec.tr31_unwrap\t{enc_b(kbpk)}\t{enc_s(w.value)}")
+                want = "ok\t" + enc_header(h) + "\t" + enc_b(key)
+                c.pred("key block with a long key is valid per the specification",
+                       lambda rep, i=i, want=want: None if rep[i] == want else f"specification says {rep[i][:80]}")
+            else:
+                c.fail("wrap raised " + w.err)
+            yield c
+            padlen = (-(2 + klen)) % bs
+            c = Case(f"{ver}:long-key:spec-to-psec", {"key": klen})
+            i = c.line("spec.tr31_build\t" + "\t".join([enc_b(kbpk), enc_header(h), "s:", "i:0", enc_b(key), enc_b(rb(rng, padlen)), "i:0"]))
+            c.deferred = (kbpk, i, h, key)
+            yield c
         # pad blocks as another implementation may write them: any printable filler, the extended length form, lower-case id, extra size
         for ksize in ksizes:
             for fill in (ord("0"), ord("F"), ord(" "), ord("*"), ord("~"), ord("="), ord("z")):
